@@ -149,6 +149,16 @@ CHECKS = {
         "urllib transport only; host-only cookies with Path=/; when the service URL comes from a profile cached by a path the model did not follow the service hop is not predicted",
         "property-based testing: Hypothesis stateful (rule-based machine) with a reference model of expected traffic and cookie jars as invariant",
     ),
+    "C15": (
+        "fault_enumeration",
+        "Histories: Hypothesis rule-based machine over four servers (two pairs sharing ORG/FID) with a reference model (newest delivered "
+        "profile bytes per server); crash points: every Python file-I/O event of a cache-writing request turned into a hard crash "
+        "(os._exit in a forked child; unflushed / flushed / half-written variants) followed by a restart against a well-behaved server; "
+        "schedules: all interleavings of two concurrent profile requests gated at cache read / server reply / open / write / close / "
+        "replace.  Invariants: returned bytes, DTPROFUP asked, cache contents whole and newest, no cross-server use.",
+        "crash granularity is the Python I/O call; kernel write reordering is not modelled; for concurrent writers only wholeness and usability are asserted",
+        "property-based testing / fault injection: Hypothesis stateful machine with reference model + exhaustive crash-point and two-thread schedule enumeration under harness-owned I/O interception",
+    ),
 }
 
 PENDING_REASON = "check not built yet in this round (planned in DESIGN.md §3); not claimed until its machinery exists and is quiet on the unchanged tree"
